@@ -47,6 +47,7 @@ package extensions
 
 //@ func E2.MulByElement
 //@ layer ring goldilocks.Element
+//@ option interior
 //@ ensures[value] vec(z) == vscale(old(*y), old(vec(x)))
 //@ ensures[result] result == z
 //@ modifies z
